@@ -5,41 +5,41 @@ From QV Require Import Common.Prelude Engine.Model Engine.Core Engine.CoreSpec E
   Engine.Fw Engine.FwBase Engine.FwMono Engine.FwOnce Engine.MdlSpec Engine.MdlBase Engine.MdlMono Engine.MdlCommit Engine.MdlSound.
 Open Scope Z_scope.
 
-Lemma step_f_session_execs : forall tord bord fuel pfuel p s sets s' x,
-  step_f tord bord fuel pfuel p s (OSession sets false) = (s', x) -> r_execs x = [].
+Lemma step_f_session_execs : forall tord bord pord fuel pfuel p s sets s' x,
+  step_f tord bord pord fuel pfuel p s (OSession sets false) = (s', x) -> r_execs x = [].
 Proof.
-  intros tord bord fuel pfuel p s sets s' x H. rewrite step_f_session in H. cbv zeta in H.
+  intros tord bord pord fuel pfuel p s sets s' x H. rewrite step_f_session in H. cbv zeta in H.
   destruct (fold_left fsess_step sets (set_ts (set_log s []) (s_ts (set_log s []) + 1)%N, [], []))
     as [[s1 rs] batch] eqn:Ef.
   apply sess_fold_log in Ef. cbn [set_ts set_log s_log] in Ef.
-  destruct (propagate pfuel (set_visited (set_stat s1 0%N) []) batch) as [s4| | |] eqn:Ep; inversion H; subst; try reflexivity.
-  apply propagate_same in Ep. destruct Ep as (_ & _ & _ & L & _). cbn [r_execs]. rewrite L. cbn [set_visited set_stat s_log].
+  destruct (propagate_o pord pfuel (set_visited (set_stat s1 0%N) []) batch) as [s4| | |] eqn:Ep; inversion H; subst; try reflexivity.
+  apply propagate_o_same in Ep. destruct Ep as (_ & _ & _ & L & _). cbn [r_execs]. rewrite L. cbn [set_visited set_stat s_log].
   rewrite Ef. reflexivity.
 Qed.
 
 Section Once.
 Variable p : program.
-Variables tord bord : state -> node -> list node -> list node.
+Variables tord bord pord : state -> node -> list node -> list node.
 Variables fuel pfuel : nat.
 
 Lemma mstep_query_mono : forall s n s' x,
-  step_f tord bord fuel pfuel p s (OQuery n) = (s', x) ->
+  step_f tord bord pord fuel pfuel p s (OQuery n) = (s', x) ->
   (s' = set_log s [] /\ r_execs x = []) \/
   (MonoR [] (set_log s []) s' /\ r_execs x = rev (s_log s')).
 Proof.
   intros s n s' x H. unfold step_f in H.
-  destruct (query_for_o p None tord bord fuel [] CUser None n (set_log s [])) as [[[[o fr] ms] s1]| | |] eqn:Eq.
-  - right. apply (proj1 (mmono_all p tord bord fuel)) in Eq. destruct o as [[z|]|]; inversion H; subst; auto.
+  destruct (query_for_o p None tord bord pord fuel [] CUser None n (set_log s [])) as [[[[o fr] ms] s1]| | |] eqn:Eq.
+  - right. apply (proj1 (mmono_all p tord bord pord fuel)) in Eq. destruct o as [[z|]|]; inversion H; subst; auto.
   - left. inversion H. auto.
   - left. inversion H. auto.
   - left. inversion H. auto.
 Qed.
 
 Lemma mstep_execs : forall s o s' x m, op_in_scope o ->
-  step_f tord bord fuel pfuel p s o = (s', x) -> In m (r_execs x) -> sverified s' m /\ ~ sverified s m.
+  step_f tord bord pord fuel pfuel p s o = (s', x) -> In m (r_execs x) -> sverified s' m /\ ~ sverified s m.
 Proof.
   intros s o s' x m Hsc H Hm. destruct o as [sets b|n|w v|].
-  - cbn in Hsc. subst b. rewrite (step_f_session_execs _ _ _ _ _ _ _ _ _ H) in Hm. destruct Hm.
+  - cbn in Hsc. subst b. rewrite (step_f_session_execs _ _ _ _ _ _ _ _ _ _ H) in Hm. destruct Hm.
   - destruct (mstep_query_mono _ _ _ _ H) as [[_ E]|[HM E]]; rewrite E in Hm; [destruct Hm|].
     apply in_rev in Hm. destruct (mr_log _ _ _ HM) as [new [L [_ P]]]. cbn [set_log s_log] in L.
     rewrite app_nil_r in L. rewrite L in Hm. destruct (P m Hm) as (_ & A & B). split; [exact B|exact A].
@@ -47,10 +47,10 @@ Proof.
   - cbn in H. inversion H. subst. destruct Hm.
 Qed.
 
-Lemma mstep_nodup : forall s o s' x, op_in_scope o -> step_f tord bord fuel pfuel p s o = (s', x) -> NoDup (r_execs x).
+Lemma mstep_nodup : forall s o s' x, op_in_scope o -> step_f tord bord pord fuel pfuel p s o = (s', x) -> NoDup (r_execs x).
 Proof.
   intros s o s' x Hsc H. destruct o as [sets b|n|w v|].
-  - cbn in Hsc. subst b. rewrite (step_f_session_execs _ _ _ _ _ _ _ _ _ H). constructor.
+  - cbn in Hsc. subst b. rewrite (step_f_session_execs _ _ _ _ _ _ _ _ _ _ H). constructor.
   - destruct (mstep_query_mono _ _ _ _ H) as [[_ E]|[HM E]]; rewrite E; [constructor|].
     destruct (mr_log _ _ _ HM) as [new [L [N _]]]. cbn [set_log s_log] in L.
     rewrite app_nil_r in L. rewrite L. apply NoDup_rev. exact N.
@@ -59,7 +59,7 @@ Proof.
 Qed.
 
 Lemma mstep_keeps_verified : forall s o s' x m,
-  step_f tord bord fuel pfuel p s o = (s', x) -> (forall sets b, o <> OSession sets b) -> op_in_scope o ->
+  step_f tord bord pord fuel pfuel p s o = (s', x) -> (forall sets b, o <> OSession sets b) -> op_in_scope o ->
   sverified s m -> sverified s' m.
 Proof.
   intros s o s' x m H Hns Hsc Hv. destruct o as [sets b|n|w v|].
@@ -71,11 +71,11 @@ Proof.
 Qed.
 
 Lemma mrun_nodup : forall ops s i r, Forall op_in_scope ops ->
-  nth_error (run_history_f tord bord fuel pfuel p s ops) i = Some r -> NoDup (r_execs r).
+  nth_error (run_history_f tord bord pord fuel pfuel p s ops) i = Some r -> NoDup (r_execs r).
 Proof.
   induction ops as [|o rest IH]; intros s i r Hsc H; [destruct i; discriminate|].
   inversion Hsc; subst.
-  cbn [run_history_f] in H. destruct (step_f tord bord fuel pfuel p s o) as [s' x] eqn:Es. destruct i as [|i].
+  cbn [run_history_f] in H. destruct (step_f tord bord pord fuel pfuel p s o) as [s' x] eqn:Es. destruct i as [|i].
   - cbn in H. inversion H. subst. eapply mstep_nodup; eauto.
   - cbn [nth_error] in H. eapply IH; eauto.
 Qed.
@@ -83,11 +83,11 @@ Qed.
 Lemma mrun_verified_not_executed : forall ops s i m, Forall op_in_scope ops ->
   sverified s m ->
   (forall k sets b, (k <= i)%nat -> nth_error ops k <> Some (OSession sets b)) ->
-  ~ executed_at (run_history_f tord bord fuel pfuel p s ops) i m.
+  ~ executed_at (run_history_f tord bord pord fuel pfuel p s ops) i m.
 Proof.
   induction ops as [|o rest IH]; intros s i m Hsc Hv Hns [r [Hr Hm]]; [destruct i; discriminate|].
   inversion Hsc; subst.
-  cbn [run_history_f] in Hr. destruct (step_f tord bord fuel pfuel p s o) as [s' x] eqn:Es. destruct i as [|i].
+  cbn [run_history_f] in Hr. destruct (step_f tord bord pord fuel pfuel p s o) as [s' x] eqn:Es. destruct i as [|i].
   - cbn in Hr. inversion Hr. subst. destruct (mstep_execs _ _ _ _ _ H1 Es Hm) as [_ K]. contradiction.
   - cbn [nth_error] in Hr. apply (IH s' i m); auto.
     + eapply mstep_keeps_verified; eauto. intros sets b ->. apply (Hns 0%nat sets b); [lia|reflexivity].
@@ -97,14 +97,14 @@ Qed.
 
 Lemma mrun_once : forall ops s j i m, Forall op_in_scope ops ->
   (j < i)%nat ->
-  executed_at (run_history_f tord bord fuel pfuel p s ops) i m ->
-  executed_at (run_history_f tord bord fuel pfuel p s ops) j m ->
+  executed_at (run_history_f tord bord pord fuel pfuel p s ops) i m ->
+  executed_at (run_history_f tord bord pord fuel pfuel p s ops) j m ->
   ~ no_session_between ops j i.
 Proof.
   induction ops as [|o rest IH]; intros s j i m Hsc Hji Hi Hj Hns.
   - destruct Hj as [r [Hr _]]. destruct j; discriminate.
   - inversion Hsc; subst. destruct Hi as [ri [Hri Hmi]]. destruct Hj as [rj [Hrj Hmj]].
-    cbn [run_history_f] in Hri, Hrj. destruct (step_f tord bord fuel pfuel p s o) as [s' x] eqn:Es.
+    cbn [run_history_f] in Hri, Hrj. destruct (step_f tord bord pord fuel pfuel p s o) as [s' x] eqn:Es.
     destruct i as [|i]; [lia|]. cbn [nth_error] in Hri. destruct j as [|j].
     + cbn in Hrj. inversion Hrj. subst. destruct (mstep_execs _ _ _ _ _ H1 Es Hmj) as [Hv _].
       apply (mrun_verified_not_executed rest s' i m H2 Hv).
@@ -117,11 +117,16 @@ End Once.
 
 (** C03 "at most once" on the full model (unordered groups included) *)
 Definition model_once_g_statement_f : Prop :=
-  forall (tord bord : oracle) fuel pfuel p ops i j m r, wf_model_g p -> Forall op_in_scope ops ->
-    let rs := run_history_f tord bord fuel pfuel p init_state ops in
+  forall (tord bord pord : oracle) fuel pfuel p ops i j m r, wf_model_g p -> Forall op_in_scope ops ->
+    let rs := run_history_f tord bord pord fuel pfuel p init_state ops in
     (nth_error rs i = Some r -> NoDup (r_execs r)) /\
     ((j < i)%nat -> executed_at rs i m -> executed_at rs j m -> ~ no_session_between ops j i).
 (** whatever the order oracles are (no hypothesis on them) *)
+Definition model_once_g_statement_op : Prop :=
+  forall (tord bord pord : oracle) p ops i j m r, wf_model_g p -> Forall op_in_scope ops ->
+    let rs := run_history_op tord bord pord p init_state ops in
+    (nth_error rs i = Some r -> NoDup (r_execs r)) /\
+    ((j < i)%nat -> executed_at rs i m -> executed_at rs j m -> ~ no_session_between ops j i).
 Definition model_once_g_statement_o : Prop :=
   forall (tord bord : oracle) p ops i j m r, wf_model_g p -> Forall op_in_scope ops ->
     let rs := run_history_o tord bord p init_state ops in
@@ -133,8 +138,8 @@ Definition model_once_g_statement : Prop :=
     (nth_error rs i = Some r -> NoDup (r_execs r)) /\
     ((j < i)%nat -> executed_at rs i m -> executed_at rs j m -> ~ no_session_between ops j i).
 Definition model_once_statement_f : Prop :=
-  forall (tord bord : oracle) fuel pfuel p ops i j m r, wf_model p -> Forall op_in_scope ops ->
-    let rs := run_history_f tord bord fuel pfuel p init_state ops in
+  forall (tord bord pord : oracle) fuel pfuel p ops i j m r, wf_model p -> Forall op_in_scope ops ->
+    let rs := run_history_f tord bord pord fuel pfuel p init_state ops in
     (nth_error rs i = Some r -> NoDup (r_execs r)) /\
     ((j < i)%nat -> executed_at rs i m -> executed_at rs j m -> ~ no_session_between ops j i).
 Definition model_once_statement : Prop :=
@@ -145,22 +150,25 @@ Definition model_once_statement : Prop :=
 
 Theorem model_once_g_f : model_once_g_statement_f.
 Proof.
-  intros tord bord fuel pfuel p ops i j m r _ Hsc. cbv zeta. split.
+  intros tord bord pord fuel pfuel p ops i j m r _ Hsc. cbv zeta. split.
   - eapply mrun_nodup; eauto.
   - intros Hji Hi Hj. eapply mrun_once; eauto.
 Qed.
-Theorem model_once_g_o : model_once_g_statement_o.
+Theorem model_once_g_op : model_once_g_statement_op.
 Proof.
-  intros tord bord p ops i j m r Hwf Hsc. cbv zeta. rewrite run_history_o_is_f. apply (model_once_g_f tord bord fuel0 4000%nat); assumption.
+  intros tord bord pord p ops i j m r Hwf Hsc. cbv zeta. rewrite run_history_op_is_f. apply (model_once_g_f tord bord pord fuel0 4000%nat); assumption.
 Qed.
+Theorem model_once_g_o : model_once_g_statement_o.
+Proof. intros tord bord p. exact (model_once_g_op tord bord ord_id p). Qed.
 Theorem model_once_g : model_once_g_statement.
 Proof. intros p. exact (model_once_g_o ord_id ord_id p). Qed.
 Theorem model_once_f : model_once_statement_f.
-Proof. intros tord bord fuel pfuel p ops i j m r Hwf. apply model_once_g_f. apply wf_model_g_of. exact Hwf. Qed.
+Proof. intros tord bord pord fuel pfuel p ops i j m r Hwf. apply model_once_g_f. apply wf_model_g_of. exact Hwf. Qed.
 Theorem model_once : model_once_statement.
 Proof. intros p ops i j m r Hwf. apply model_once_g. apply wf_model_g_of. exact Hwf. Qed.
 
 Print Assumptions model_once_g_f.
+Print Assumptions model_once_g_op.
 Print Assumptions model_once_g_o.
 Print Assumptions model_once_g.
 Print Assumptions model_once_f.
